@@ -95,6 +95,23 @@ pub fn lookups<S: Sch>(rec: &mut Rec) {
     rec.sample(&format!("{}-lookups", S::NAME), id.clone());
 }
 
+
+/// Coefficient vectors of degree `deg` for the "polynomial too large" requests: dense, the monomial X^deg alone,
+/// X^(deg-s) * (dense of degree s) - an oversized polynomial whose non-zero tail would fit the key -, and dense
+/// with a zero constant term.
+pub fn oversize_vectors<F: ark_ff::PrimeField>(r: &[F], deg: usize, s: usize) -> Vec<(&'static str, Vec<F>)> {
+    let dense = r[..=deg].to_vec();
+    let mut top = vec![F::zero(); deg + 1];
+    top[deg] = F::one();
+    let mut shifted = dense.clone();
+    for i in 0..deg.saturating_sub(s).min(deg) {
+        shifted[i] = F::zero();
+    }
+    let mut low1 = dense.clone();
+    low1[0] = F::zero();
+    vec![("dense", dense), ("top-only", top), ("low-zeros", shifted), ("zero-constant", low1)]
+}
+
 /// Sizes around the limits for the degree-based schemes.
 pub fn sizes_uni<S: Sch>(rec: &mut Rec)
 where
@@ -118,6 +135,16 @@ where
             let res = do_commit::<S>(&keys.ck, &[p], None);
             if deg > s {
                 refused(rec, S::NAME, "commit", "polynomial-too-large", &id, res.is_ok(), format!("degree {} committed under supported degree {}", deg, s));
+                for (vn, v) in oversize_vectors::<S::F>(&r, deg, s).into_iter().skip(1) {
+                    for h in [None, Some(1usize)] {
+                        if h.is_some() && !S::HIDING {
+                            continue;
+                        }
+                        let mut rng = seed_rng(rec.seed, 0);
+                        let res = do_commit::<S>(&keys.ck, &[lp::<S>("p", S::poly(&v), None, h)], Some(&mut rng as &mut dyn RngCore));
+                        refused(rec, S::NAME, "commit", "polynomial-too-large", &id, res.is_ok(), format!("degree {} ({}, hiding {:?}) committed under supported degree {}", deg, vn, h, s));
+                    }
+                }
             } else {
                 rec.count_points(1);
                 rec.class(if res.is_ok() { "in-domain-served" } else { "in-domain-refused" });
@@ -326,6 +353,18 @@ where
                 // the commit side of the same request, for completeness of the boundary table
                 let res = do_commit::<S>(&small.ck, &[lp::<S>("p", S::poly(&r[..=deg]), None, None)], None);
                 refused(rec, S::NAME, "commit", "polynomial-too-large", &id, res.is_ok(), format!("degree {} committed under supported degree {}", deg, s_small));
+                // the same for the sparse oversized shapes (monomial, low-order zeros): commit and open
+                for (vn, v) in oversize_vectors::<S::F>(&r, deg, s_small).into_iter().skip(1) {
+                    let res = do_commit::<S>(&small.ck, &[lp::<S>("p", S::poly(&v), None, None)], None);
+                    refused(rec, S::NAME, "commit", "polynomial-too-large", &id, res.is_ok(), format!("degree {} ({}) committed under supported degree {}", deg, vn, s_small));
+                    if let Ok(c) = commit_set::<S>(&big, vec![lp::<S>("p", S::poly(&v), None, h)], rec.seed, 0) {
+                        let (polys, cmr, sts) = c.refs();
+                        let mut sponge = sponge_pre::<S::F>(0);
+                        let mut rng = seed_rng(rec.seed, 20);
+                        let res = do_open::<S>(&small.ck, &polys, &cmr, &z, &mut sponge, &sts, Some(&mut rng as &mut dyn RngCore));
+                        refused(rec, S::NAME, "open", "polynomial-too-large", &id, res.is_ok(), format!("a degree-{} polynomial ({}, hiding {:?}) was opened under a committer key supporting degree {}", deg, vn, h, s_small));
+                    }
+                }
             }
         }
     }
@@ -650,6 +689,14 @@ pub fn special(rec: &mut Rec) {
         let res = flat(catch(|| Kzg::commit(&powers, &p, None, None)));
         if deg > 3 {
             refused(rec, "KZG", "commit", "polynomial-too-large", &id, res.is_ok(), format!("degree {} committed with 4 powers", deg));
+            for (vn, v) in oversize_vectors::<Fr381>(&r, deg, 3).into_iter().skip(1) {
+                for h in [None, Some(1usize)] {
+                    let mut rng = seed_rng(rec.seed, 0);
+                    let p = UP::<Fr381>::from_coefficients_slice(&v);
+                    let res = flat(catch(|| Kzg::commit(&powers, &p, h, Some(&mut rng as &mut dyn RngCore))));
+                    refused(rec, "KZG", "commit", "polynomial-too-large", &id, res.is_ok(), format!("degree {} ({}, hiding {:?}) committed with 4 powers", deg, vn, h));
+                }
+            }
         } else if res.is_err() {
             rec.violation("C17/KZG/commit/in-domain-refused", &id, format!("degree {} refused with 4 powers", deg));
         }
@@ -687,8 +734,17 @@ pub fn special(rec: &mut Rec) {
     // streaming KZG: polynomial longer than the key
     let sck = str_key(4, 2, rec.seed);
     let vk = SVk::from(&sck);
-    for len in [5usize, 6, 9] {
-        let coeffs = r[..len].to_vec();
+    for (len, variant) in [(5usize, 0usize), (6, 0), (9, 0), (6, 1), (9, 1), (6, 2), (9, 2)] {
+        let mut coeffs = r[..len].to_vec();
+        if variant == 1 {
+            // low-order zeros: the non-zero tail alone would fit the key
+            for i in 0..(len - 5) {
+                coeffs[i] = Fr381::zero();
+            }
+        } else if variant == 2 {
+            coeffs = vec![Fr381::zero(); len];
+            coeffs[len - 1] = Fr381::one();
+        }
         let res = catch(|| sck.commit(&coeffs));
         match res {
             Err(_) => refused(rec, "STR", "commit", "polynomial-too-large", &id, false, String::new()),
